@@ -1135,7 +1135,8 @@ DOMServices::isNodeAfter(
                     if (0 == prevChild1) // first time in loop?
                     {
                         // Edge condition: one is the ancestor of the other.
-                        isNodeAfter = (nParents1 < nParents2) ? true : false;
+                        // The deeper one is the descendant, which comes after.
+                        isNodeAfter = (nParents1 > nParents2) ? true : false;
 
                         break; // from while loop
                     }
